@@ -334,3 +334,52 @@ Proof.
     + unfold fixed_text. rewrite <- (dpatches_erase _ _ _ Ed). rewrite fix_string_sorted by exact Hsd. exact Hx.
     + rewrite <- Ts. rewrite <- splice_r_len. exact Hy.
 Qed.
+
+(** * Non-vacuity *)
+(** "sel  :x ,b\n" with x = 123 renders "sel  123 ,b\n". The final tree reads "SEL 123, b\n": keyword
+    capitalised, the double blank replaced by one, the blank before the comma deleted (a gap patch of the
+    non-literal branch), a blank inserted after the comma (an inserted point segment, carried by the next gap
+    patch). *)
+Definition ex_t_src : str := [115;101;108;32;32;58;120;32;44;98;10].
+Definition ex_t_tpl : str := [115;101;108;32;32;49;50;51;32;44;98;10].
+Definition ex_t_tf : tfile := mkTf ex_t_src ex_t_tpl [(0, true); (5, false); (7, true)].
+Definition ex_t_sl : list TM.tslice :=
+  [TM.mk_ts TM.SLit 0 5 0 5; TM.mk_ts TM.STempl 5 7 5 8; TM.mk_ts TM.SLit 7 11 8 12].
+Definition ex_t_tree : seg :=
+  Node false (mkPos 0 11 0 12) []
+    [Leaf false [83;69;76] (mkPos 0 3 0 3); Leaf false [32] (mkPos 3 5 3 5);
+     Leaf false [49;50;51] (mkPos 5 7 5 8); Leaf false [44] (mkPos 8 9 9 10);
+     Leaf false [32] (mkPos 9 9 10 10); Leaf false [98] (mkPos 9 10 10 11);
+     Leaf false [10] (mkPos 10 11 11 12); Leaf true [] (mkPos 11 11 12 12)].
+Example ex_templated :
+  TP.tiling (src ex_t_tf) (tpl ex_t_tf) ex_t_sl 0 0 /\ tree_ok ex_t_tf ex_t_sl ex_t_tree = true /\
+  iter_patches ex_t_tf ex_t_tree =
+    [mkPatch 0 3 [83;69;76]; mkPatch 3 5 [32]; mkPatch 7 8 []; mkPatch 9 9 [32]] /\
+  phs ex_t_tf ex_t_sl = [[58;120]] /\ rds ex_t_tf ex_t_sl = [[49;50;51]] /\
+  fixed_text ex_t_tf ex_t_tree = weave [[83;69;76;32]; [44;32;98;10]] (phs ex_t_tf ex_t_sl) /\
+  raw ex_t_tree = render ex_t_tf ex_t_sl [[83;69;76;32]; [44;32;98;10]].
+Proof.
+  split.
+  - cbn. repeat split; try lia; try (left; reflexivity); try (right; reflexivity); try discriminate.
+  - repeat split; vm_compute; reflexivity.
+Qed.
+
+(** [tree_ok] rejects the recorded defect classes. "a :n;" with n empty renders "a ;"; a tree that lost the
+    blank yields the gap patch 1..4 := "" which swallows the placeholder: not aligned with a literal slice. *)
+Example ex_tree_ok_rejects_swallow :
+  let tf := mkTf [97;32;58;110;59] [97;32;59] [(0, true); (2, false); (4, true)] in
+  let sl := [TM.mk_ts TM.SLit 0 2 0 2; TM.mk_ts TM.STempl 2 4 2 2; TM.mk_ts TM.SLit 4 5 2 3] in
+  let t := Node false (mkPos 0 5 0 3) [] [Leaf false [97] (mkPos 0 1 0 1); Leaf false [59] (mkPos 4 5 2 3); Leaf true [] (mkPos 5 5 3 3)] in
+  tilingb (src tf) (tpl tf) sl 0 0 = true /\ iter_patches tf t = [mkPatch 1 4 []] /\ tree_ok tf sl t = false /\
+  fixed_text tf t = [97;59].
+Proof. repeat split; vm_compute; reflexivity. Qed.
+
+(** a changed token inside a placeholder's rendering (the conflict filter failed): [iter_patches] drops the
+    edit silently, the walk answers [None] *)
+Example ex_tree_ok_rejects_templated_edit :
+  let t := Node false (mkPos 0 11 0 12) []
+    [Leaf false [115;101;108] (mkPos 0 3 0 3); Leaf false [32;32] (mkPos 3 5 3 5);
+     Leaf false [49;50;52] (mkPos 5 7 5 8); Leaf false [32] (mkPos 7 8 8 9); Leaf false [44] (mkPos 8 9 9 10);
+     Leaf false [98] (mkPos 9 10 10 11); Leaf false [10] (mkPos 10 11 11 12); Leaf true [] (mkPos 11 11 12 12)] in
+  dpatches ex_t_tf t = None /\ tree_ok ex_t_tf ex_t_sl t = false /\ iter_patches ex_t_tf t = [].
+Proof. repeat split; vm_compute; reflexivity. Qed.
